@@ -25,6 +25,11 @@
 #include <gmssl/x509.h>
 #include <gmssl/error.h>
 
+// ctime() keeps its result in static storage shared by all threads
+#ifdef WIN32
+#define ctime_r(t, buf) (ctime_s((buf), 26, (t)) == 0 ? (buf) : NULL)
+#endif
+
 
 const char *x509_version_name(int version)
 {
@@ -201,14 +206,15 @@ int x509_validity_check(time_t not_before, time_t not_after, time_t now, int max
 int x509_validity_print(FILE *fp, int fmt, int ind, const char *label, const uint8_t *d, size_t dlen)
 {
 	time_t tv;
+	char timebuf[26];
 
 	format_print(fp, fmt, ind, "%s\n", label);
 	ind += 4;
 
 	if (x509_time_from_der(&tv, &d, &dlen) != 1) goto err;
-	format_print(fp, fmt, ind, "notBefore: %s", ctime(&tv));
+	format_print(fp, fmt, ind, "notBefore: %s", ctime_r(&tv, timebuf));
 	if (x509_time_from_der(&tv, &d, &dlen) != 1) goto err;
-	format_print(fp, fmt, ind, "notAfter: %s", ctime(&tv));
+	format_print(fp, fmt, ind, "notAfter: %s", ctime_r(&tv, timebuf));
 	if (asn1_length_is_zero(dlen) != 1) goto err;
 	return 1;
 err:
